@@ -180,6 +180,21 @@ def main_check(prop: str, tier: str, argv=None):
     floor = getattr(mod, "MIN_CONCLUSIVE_FRACTION", 0.5)
     if planned and len(conclusive) < floor * len(planned):
         harness_errors.append(f"conclusive coverage {len(conclusive)}/{len(planned)} below the floor {floor}")
+    # every group of queries must stay mostly conclusive: a change that turns a whole family of
+    # queries into 'unsupported'/'budget' must not pass silently (exit 2, never a verdict)
+    gfloor = getattr(mod, "MIN_GROUP_CONCLUSIVE_FRACTION", 0.5)
+    optional = set(getattr(mod, "OPTIONAL_GROUPS", ()))
+    by_group = defaultdict(lambda: [0, 0])
+    for q, r in zip(queries, results):
+        if q.canary:
+            continue
+        g = (q.group or q.name).split(":")[0]
+        by_group[g][0] += 1
+        if not r.error and not r.inconclusive:
+            by_group[g][1] += 1
+    for g, (n, ok) in sorted(by_group.items()):
+        if g not in optional and ok < gfloor * n:
+            harness_errors.append(f"query group '{g}': only {ok}/{n} conclusive (floor {gfloor}) - inconclusive, not a pass")
     samples = []
     for q, r in zip(queries, results):
         if q.canary:
@@ -239,6 +254,7 @@ def main_check(prop: str, tier: str, argv=None):
             "traces_validated_against_impl": len(items),
             "checker_cmd": f"./vcheck {prop} --tier {tier}",
             "trusted_base": ["z3 " + _z3v(), "CPython " + sys.version.split()[0], "symx (this repo, differential self-check: ./vcheck selfcheck)"],
+            "query_groups": {g: {"planned": n, "conclusive": ok} for g, (n, ok) in sorted(by_group.items())},
             "harness_errors": harness_errors,
         },
     }
